@@ -142,8 +142,10 @@ class C20(core.Prop):
         from harness.impl import c20 as impl
 
         obs = [impl.observe(c) for c in cases]
-        if getattr(self, 'tier', 'quick') == 'thorough':  # merge iterates a set of keys: repeat under other hash seeds
-            for seed in ('1', '2', '3'):
+        # merge iterates a set of keys and Bank.add a set of references: repeat under other hash seeds (both tiers - a
+        # registration that is no longer atomic shows only when the qualified reference happens to be iterated before the alias)
+        if True:
+            for seed in (('1', '2', '3', '4', '5') if getattr(self, 'tier', 'quick') == 'thorough' else ('1', '2', '3')):
                 other = core.impl_subprocess('harness.impl.c20', cases, {'PYTHONHASHSEED': seed})
                 for i, (a, b) in enumerate(zip(obs, other)):
                     if a != b and 'error' not in a:
